@@ -11,6 +11,7 @@ state, unbound locals, return / raise) is translate_core.FunTr.  EXPRESSION GRAM
 TranslateError naming file, line and construct):
 
   load_data(var)            e ::= f"...{var}..."  (pieces: the parameter, literal text without [ ] /)      -> string ++
+                                | "...{}...".format(var)  (plain positional fields only, str arguments)    -> the same ++
                                 | glob(e)  (glob bound by `from glob import glob`; also glob.glob)          -> py_glob listing e
                                 | sorted(e)                                                                -> py_sorted e
                                 | e[INT]                                                                   -> py_index e INT (IndexError = None)
@@ -199,19 +200,61 @@ class CliTr(FunTr):
         if kwargs:
             self.bail(e, "%s with keyword arguments (%s)" % (what, ", ".join(kwargs)))
 
-    # ---- f-strings -------------------------------------------------------------------------------------
+    # ---- f-strings and str.format ------------------------------------------------------------------------
+    def pattern_text(self, text, e):
+        if re.search(r"[\[\]/\\]", text):
+            self.bail(e, "string text %r contains one of [ ] / \\ (character classes, directories and escapes of glob "
+                         "patterns are not modelled)" % text)
+        try:
+            return coq_str(text)
+        except ValueError as x:
+            self.bail(e, str(x))
+
+    @staticmethod
+    def concat(parts):
+        if not parts:
+            return Val('""', "str")
+        t = parts[-1]
+        for p in reversed(parts[:-1]):
+            t = "(%s ++ %s)" % (p, t)
+        return Val("(%s)%%string" % t, "str")
+
+    def str_format(self, v, args, kwargs, e, env, B):
+        """"literal {} literal".format(a, ..): positional auto-numbered fields only, no conversion / format spec, every
+        argument a str - then format(a, "") is a itself and the result is the same concatenation as the f-string"""
+        import string
+        if kwargs or not (isinstance(v.extra, tuple) and v.extra[0] == "lit"):
+            self.bail(e, "`%s` (only <string literal>.format(positional str arguments))" % src_of(e)[:80])
+        vals = self.args_vals(args, env, B)
+        parts, k = [], 0
+        try:
+            pieces = list(string.Formatter().parse(v.extra[1]))
+        except ValueError as x:
+            self.bail(e, "format string %r: %s" % (v.extra[1], x))
+        for lit, field, spec, conv in pieces:
+            if lit:
+                parts.append(self.pattern_text(lit, e))
+            if field is None:
+                continue
+            if field != "" or spec or conv:
+                self.bail(e, "format field `{%s%s%s}` (only the plain positional `{}`)"
+                          % (field, "!" + conv if conv else "", ":" + spec if spec else ""))
+            if k >= len(vals):
+                self.bail(e, "more `{}` fields than arguments in `%s`" % src_of(e)[:80])
+            if vals[k].ty != "str":
+                self.bail(e, "format argument of type %s" % vals[k].ty)
+            parts.append(vals[k].term)
+            k += 1
+        if k != len(vals):
+            self.bail(e, "unused format arguments in `%s`" % src_of(e)[:80])
+        return self.concat(parts)
+
     def other_expr(self, e, env, B):
         if isinstance(e, ast.JoinedStr):
             parts = []
             for p in e.values:
                 if isinstance(p, ast.Constant) and isinstance(p.value, str):
-                    if re.search(r"[\[\]/\\]", p.value):
-                        self.bail(e, "f-string text %r contains one of [ ] / \\ (character classes, directories and "
-                                     "escapes of glob patterns are not modelled)" % p.value)
-                    try:
-                        parts.append(coq_str(p.value))
-                    except ValueError as x:
-                        self.bail(e, str(x))
+                    parts.append(self.pattern_text(p.value, e))
                 elif isinstance(p, ast.FormattedValue):
                     if p.conversion != -1 or p.format_spec is not None:
                         self.bail(e, "f-string field with conversion / format spec in `%s`" % src_of(e))
@@ -221,12 +264,7 @@ class CliTr(FunTr):
                     parts.append(v.term)
                 else:
                     self.bail(e, "f-string piece `%s`" % src_of(p))
-            if not parts:
-                return Val('""', "str")
-            t = parts[-1]
-            for p in reversed(parts[:-1]):
-                t = "(%s ++ %s)" % (p, t)
-            return Val("(%s)%%string" % t, "str")
+            return self.concat(parts)
         if isinstance(e, ast.Dict) and not e.keys:
             return Val("dict_empty", "dict:series")
         self.bail(e)
@@ -249,6 +287,8 @@ class CliTr(FunTr):
         self.bail(e, "attribute `.%s` of a value of type %s" % (attr, v.ty))
 
     def method(self, v, attr, args, kwargs, e, env, B):
+        if attr == "format" and v.ty == "str":
+            return self.str_format(v, args, kwargs, e, env, B)
         if attr == "to_numpy" and not args and not kwargs:
             if v.ty == "labels":
                 return Val(v.term, "arr")
